@@ -1,4 +1,5 @@
 import Ledger.Sched.Writers
+import Ledger.Proofs.SchedBlocks
 import Ledger.Proofs.SchedHandles
 import Ledger.Proofs.SchedWitnesses
 
@@ -10,8 +11,11 @@ that are COMMITTED when it runs. With HASH_LOGS=ASYNC no advisory lock orders lo
 allocation and commit, so a log can commit after a higher id was already put into a
 block: it is never hashed (`…_counterexample`). What holds: the blocks built by one
 call form a contiguous chain over exactly the committed logs above the previous block
-(`blocks_contiguous`, `block_covers_committed_at_build_time`); completeness needs commit
-order = id order, which only the SYNC protocol gives.
+(`blocks_contiguous`, `block_covers_committed_at_build_time`); and, over ALL schedules,
+`blocks_partition_partial`: IF the writers follow the discipline that makes commit order =
+id order (log INSERT under the advisory lock held to commit — what HASH_LOGS=SYNC does and
+ASYNC does not), every block covers exactly the committed log ids of its range for ever, and
+the ranges are disjoint and ordered.
 PostgreSQL (snapshot of the procedure call) is MODELLED (LeanPG).
 -/
 namespace Ledger.C34
@@ -53,6 +57,51 @@ theorem block_covers_committed_at_build_time (l size fuel last : Nat) (ids : Lis
 
 example : mkBlocks 1 2 5 0 [1, 2, 4] =
     [{ l := 1, from_ := 0, to := 2, ids := [1, 2] }, { l := 1, from_ := 2, to := 4, ids := [4] }] := by decide
+
+/-- `blocks_partition_partial`: for every schedule, for programs following the lock discipline of
+    `Ledger.C09s.chain_linear_any_schedule` (commit order = id order), with any number of block-builder
+    calls interleaved anywhere: every block's digest input is exactly the set of committed log ids of its
+    range `(from, to]` — at that moment and at every later one —, no log in progress has an id inside a
+    built range, and the ranges are disjoint and ordered. -/
+theorem blocks_partition_partial (l₀ : Nat) (σ : Schedule) (w₀ : World)
+    (hg : GInv ⟨logKey l₀, l₀, true⟩ w₀) (hc : ChainInv ⟨logKey l₀, l₀, true⟩ w₀) (hb : BInv l₀ w₀) :
+    let w := run σ w₀
+    (∀ b ∈ w.blocks, b.l = l₀ → ∀ i, i ∈ b.ids ↔ (i ∈ Cids l₀ w ∧ b.from_ < i ∧ i ≤ b.to)) ∧
+    (∀ b ∈ w.blocks, b.l = l₀ → ∀ e ∈ w.logs, e.l = l₀ → e.com = false → b.to < e.id) ∧
+    (w.blocks.filter (fun b => b.l = l₀)).Pairwise (fun a b => a.to ≤ b.from_) := by
+  intro w
+  have h := binv_run ⟨logKey l₀, l₀, true⟩ rfl σ w₀ hg hc hb
+  refine ⟨h.bi, ?_, h.bd⟩
+  intro b hb' hbl e he hel hec
+  exact h.bu b hb' hbl e (by unfold Lof; exact List.mem_filter.mpr ⟨he, by simpa using hel⟩) hec
+
+/-- non-vacuity: two SYNC-disciplined writers and two block-builder calls satisfy the hypotheses; under the
+    schedule of the counterexample the second writer now waits for the lock and the blocks are complete -/
+example :
+    let w₀ : World := { sess := fun s =>
+      if s = 1 then { prog := sendProg { cxA with sync := true } true } else if s = 2 then { prog := sendProg { cxB with sync := true } true }
+      else if s = 3 ∨ s = 4 then { prog := blocksProg 1 100 } else {} }
+    GInv ⟨logKey 1, 1, true⟩ w₀ ∧ ChainInv ⟨logKey 1, 1, true⟩ w₀ ∧ BInv 1 w₀ ∧
+    (run ([1, 1, 1, 1, 1, 1] ++ [2, 2, 2, 2, 2] ++ [3, 1] ++ [2, 2, 2, 4]) w₀).blocks =
+      [{ l := 1, from_ := 0, to := 2, ids := [1, 2] }] := by
+  intro w₀
+  refine ⟨⟨(by intro a ha; cases ha), fun s => ⟨{}, ⟨?_, ?_, ?_, ?_, ?_, ?_⟩, ?_⟩⟩, ?_, ?_, by decide⟩
+  · intro h; cases h
+  · intro h; cases h
+  · intro h; cases h
+  · intro _ e he; cases he
+  · intro h; cases h
+  · intro h; cases h
+  · show Safe _ _ (if s = 1 then _ else _ : Session).prog
+    split
+    · exact safe_sendProg_inUse _ _ (fun _ => ⟨rfl, rfl⟩) {}
+    · split
+      · exact safe_sendProg_inUse _ _ (fun _ => ⟨rfl, rfl⟩) {}
+      · split
+        · exact ⟨trivial, fun _ _ => trivial⟩
+        · trivial
+  · refine ⟨List.Pairwise.nil, ?_, trivial, List.Pairwise.nil, List.Pairwise.nil, ?_, ?_, ?_⟩ <;> intro e he <;> cases he
+  · refine ⟨?_, ?_, ?_, List.Pairwise.nil⟩ <;> intro b hb <;> cases hb
 
 /-! ## the counterexample: a log that commits after a higher id was put into a block -/
 
